@@ -14,7 +14,7 @@ using namespace rt;
   X(INSERT_C) X(INSERT_M) X(EMPLACE) X(HINT_C) X(HINT_M) X(EMPLACE_HINT) X(INSERT_RANGE) X(INSERT_IL) X(ERASE_KEY)    \
   X(ERASE_POS) X(ERASE_RANGE) X(CLEAR) X(ERASE_LOOP) X(ERASE_IF) X(EXTRACT_KEY_INS) X(EXTRACT_POS_INS)                \
   X(EXTRACT_KEY_INS_HINT) X(NODE_FROM_TEMP) X(NODE_FROM_TEMP_HINT) X(EMPTY_NODE_INS) X(MERGE) X(MERGE_TEMP)           \
-  X(MERGE_OTHER) X(SWAP_MEMBER) X(SWAP_FREE) X(COPY_ASSIGN) X(MOVE_ASSIGN) X(COPY_CONSTRUCT) X(MOVE_CONSTRUCT)        \
+  X(MERGE_OTHER) X(MERGE_OTHER2) X(SWAP_MEMBER) X(SWAP_FREE) X(COPY_ASSIGN) X(MOVE_ASSIGN) X(COPY_CONSTRUCT) X(MOVE_CONSTRUCT)        \
   X(COPY_ASSIGN_T) X(MOVE_ASSIGN_T) X(SWAP_T) X(MOVE_CTOR_T) X(COPY_CTOR_T) X(CTOR_RANGE) X(CTOR_IL) X(OPEQ_IL)       \
   X(FROM_VECTOR) X(ASSIGN_VECTOR) X(STEAL_VECTOR) X(RESERVE) X(SHRINK)
 
@@ -204,6 +204,7 @@ inline void enumerate(const World &w, const Opts &o, std::vector<Op> &out) {
 #endif
       if (o.temps) {
         add(MERGE_TEMP, mask); add(MERGE_OTHER, mask);
+        if (kSmallSet) add(MERGE_OTHER2, mask);
         add(COPY_ASSIGN_T, mask); add(MOVE_ASSIGN_T, mask); add(SWAP_T, mask); add(MOVE_CTOR_T, mask); add(COPY_CTOR_T, mask);
         add(MOVE_CTOR_T, mask, 1); add(COPY_CTOR_T, mask, 1);  // allocator-extended constructors
       }
